@@ -115,6 +115,12 @@ def run(ctx):
                                 "(normal-form equality of match arms), and build the rule graph identically")
     gensib.run(rg, gen)
     rg.require(25, "arms")
+    rgx = ctx.rule("R20-GENSIBX", "the same with the grammar-extras cargo feature on (node tags are one more shared operator)")
+    genx = facts.load("extras")["pest_typed_generator.extras"]
+    gensib.run(rgx, genx)
+    if "arm NodeTag" not in repr(sorted(rgx.distinct)):
+        rgx.violate("NodeTag", "no NodeTag arm was compared (anchor lost)")
+    rgx.require(27, "arms")
 
     # ---- emitted names resolve / output compiles (rustc as the decision procedure on fixtures)
     rn = ctx.rule("R20-NAMES", "every name the templates emit resolves: derive output of one rule per operator form compiles with the optimizer on and off")
